@@ -73,7 +73,10 @@ C_SendRace(e) == e.op = "SendRace" =>
 \* the channel is closed right around the caller's deadline: "(a closed channel counts as false)" whichever comes first
 C_CloseRace(e) == e.op = "RecvCloseRace" => ~e.blocked /\ ~e.ok /\ e.v = 0
 C_NoPanic(e) == e.panic = ""
-All(e) == C_CloseRace(e) /\ C_RecvRace(e) /\ C_SendRace(e) /\ C_NoPanic(e) /\ C_NeverBlocks(e) /\ C_Queued(e) /\ C_QueuedPending(e) /\ C_Outcome(e) /\ C_SendConserve(e) /\ C_RecvConserve(e) /\ C_Unlimited(e)
+\* SendDeadlineRace (a batch of rounds, summarised): n rounds, pending = rounds in which SendTimeout's answer differed from what
+\* the receiver saw ("return true exactly when the value was handed to the channel")
+C_SendDeadline(e) == e.op = "SendDeadlineRace" => e.pending = 0
+All(e) == C_SendDeadline(e) /\ C_CloseRace(e) /\ C_RecvRace(e) /\ C_SendRace(e) /\ C_NoPanic(e) /\ C_NeverBlocks(e) /\ C_Queued(e) /\ C_QueuedPending(e) /\ C_Outcome(e) /\ C_SendConserve(e) /\ C_RecvConserve(e) /\ C_Unlimited(e)
 TInit == l = 1
 Step == l <= Len(Trace) /\ l' = l + 1 /\ (Gate => All(Ev))
 TSpec == TInit /\ [][Step]_vars
@@ -89,6 +92,7 @@ I_RecvConserve == Chk => C_RecvConserve(Obs)
 I_Unlimited == Chk => C_Unlimited(Obs)
 I_RecvRace == Chk => C_RecvRace(Obs)
 I_CloseRace == Chk => C_CloseRace(Obs)
+I_SendDeadline == Chk => C_SendDeadline(Obs)
 I_SendRace == Chk => C_SendRace(Obs)
 Track == TrackL(l)
 Accepted == AcceptedP
